@@ -1053,9 +1053,13 @@ def corpus_c20(tier):
     n = 25 if tier == "quick" else 150
     cases = fam_naming_fixed()
     # the naming clauses on the hand-written shapes of the other families
-    for fam, every_q, every_t in ((fam_expr_fixed(), 9, 3), (fam_func_fixed(), 2, 1), (fam_entity_fixed(), 12, 4), (fam_loop16_fixed(), 6, 2)):
+    # thorough: all of them; quick: a sample that is stable when a family grows (hash of the id, not the position) -
+    # tools/curate.py additionally keeps every case that was ever in the quick tier (corpus/pinned_C20.json)
+    import zlib
+
+    for fam, every_q in ((fam_expr_fixed(), 9), (fam_func_fixed(), 2), (fam_entity_fixed(), 12), (fam_loop16_fixed(), 6)):
         for j, c in enumerate(fam):
-            if c.get("kind", "stateless") != "stateless" or j % (every_q if tier == "quick" else every_t):
+            if c.get("kind", "stateless") != "stateless" or (tier == "quick" and zlib.crc32(c["id"].encode()) % every_q):
                 continue
             cases.append(dict(c, id="n" + c["id"], family="nother", params=dict(c.get("params", {}), naming=True)))
     for i in range(n):
@@ -1164,11 +1168,13 @@ def corpus_c10(tier):
         c = fam_mem(2000 + i)
         cases.append({"id": f"omem-{i:04d}", "family": "omem", "kind": "equiv", "pairs": _opt_pair(c["stmts"]), "params": {"K": 4}})
     # every hand-written shape of the other properties' fixed families, as an optimised / unoptimised pair
+    import zlib
+
     def pairs_of(fam, prefix, quick_every):
         for j, c in enumerate(fam):
             if c.get("kind", "stateless") not in ("stateless",):
                 continue
-            if tier == "quick" and j % quick_every:
+            if tier == "quick" and zlib.crc32(c["id"].encode()) % quick_every:  # stable under growth; earlier quick picks stay pinned (curate)
                 continue
             cases.append({"id": f"{prefix}{c['id']}", "family": "ofixedother", "kind": "equiv", "pairs": _opt_pair(c["stmts"])})
 
